@@ -42,7 +42,8 @@ RULE = ("random interleavings of ALL public mutating calls with a fresh dyadic b
         "interactions with constant diagonal but non-constant matrix ([c,c] shifts, [a,b,b,a], two-site constant-diagonal full matrices) next to "
         "symmetric and constant terms, constant flag recomputed from the matrix; constant two- and three-variable interactions next to symmetric bonds and single-site constant terms on a subset of variables; "
         "three-variable full matrices with one-/two-bit off-diagonal entries and two-variable single-bit flips under loop updates; full two-/three-variable matrices symmetric except for one (idx, ~idx) pair placed in every quarter of the index range, with the gate oracle that no plain "
-        "cluster update runs while a term is asymmetric (all 4^n entries compared); serial tempering ladders mixing a zero-field replica with field replicas of one sign (>= 30 rounds of [steps; tempering_step], every "
+        "cluster update runs while a term is asymmetric (all 4^n entries compared); direct swaps through swap_manager_and_state AND the SwapManagers trait (can_swap_graphs + swap_graphs, get/set_op_cutoff) between hot and fresh "
+        "samplers with different cutoffs, followed by steps of each; serial tempering ladders mixing a zero-field replica with field replicas of one sign (>= 30 rounds of [steps; tempering_step], every "
         "replica judged with its own Hamiltonian after every call). Non-trivial = at least one operator before or after; distinct = distinct (call, Hamiltonian, before, after).")
 
 
